@@ -67,9 +67,13 @@ def programs(draw):
     for _ in range(nthreads):
         acts = []
         for _ in range(draw(st.integers(1, 4))):
-            k = draw(st.sampled_from(["probe", "probe", "probe", "start", "urwid"]))
+            k = draw(st.sampled_from(["probe", "probe", "probe", "start", "urwid", "probe_fail", "probe2"]))
             if k == "probe":
                 acts.append(["probe", draw(st.integers(0, 2))])
+            elif k == "probe_fail":  # the innermost synchronized call raises; later calls must still be serialized
+                acts.append(["probe_fail", draw(st.integers(0, 2))])
+            elif k == "probe2":  # a second lock_tty() wrapper around the very same function
+                acts.append(["probe2", draw(st.integers(0, 1))])
             elif k == "urwid":
                 acts.append(["urwid", draw(st.sampled_from(["write", "flush", "get_available_raw_input", "draw_screen"]))])
             else:
@@ -111,7 +115,10 @@ def check_schedule(c, rec):
     U._process_start_wrapper.__wrapped__ = lambda self, *a, **k: started.append((self, U._tty_lock))
     mon = {"owner": None, "depth": 0, "overlap": None, "entries": 0}
 
-    def body(depth):
+    class Boom(Exception):
+        pass
+
+    def body(depth, fail=False):
         me = sched.me()
         if mon["owner"] is not None and mon["owner"] is not me:
             mon["overlap"] = (mon["owner"].name, me.name)
@@ -120,18 +127,24 @@ def check_schedule(c, rec):
         mon["depth"] += 1
         mon["entries"] += 1
         sched.point("inside")
-        if depth > 0:
-            probe(depth - 1)
-        sched.point("inside2")
-        mon["depth"] -= 1
-        if mon["depth"] == 0:
-            mon["owner"] = None
-        elif prev is not me:
-            mon["owner"] = prev
+        try:
+            if depth > 0:
+                probe(depth - 1, fail)
+            elif fail:
+                raise Boom()
+            sched.point("inside2")
+        finally:
+            mon["depth"] -= 1
+            if mon["depth"] == 0:
+                mon["owner"] = None
+            elif prev is not me:
+                mon["owner"] = prev
 
-    @U.lock_tty
-    def probe(depth):
-        body(depth)
+    def raw_probe(depth, fail=False):
+        body(depth, fail)
+
+    probe = U.lock_tty(raw_probe)
+    probe2 = U.lock_tty(raw_probe)  # decorating the same function again must give a synchronized callable again
 
     base.write = lambda self, data: body(0)
     base.flush = lambda self: body(0)
@@ -149,6 +162,13 @@ def check_schedule(c, rec):
             for a in acts:
                 if a[0] == "probe":
                     probe(a[1])
+                elif a[0] == "probe2":
+                    probe2(a[1])
+                elif a[0] == "probe_fail":
+                    try:
+                        probe(a[1], True)
+                    except Boom:
+                        pass
                 elif a[0] == "urwid":
                     if a[1] == "write":
                         screen.write("x")
